@@ -10,7 +10,7 @@ TD = "time_delta::TimeDelta"
 def run(chk, tier):
     P = Prog("default")
     chk.configs.add("default")
-    for r in (r_consts, r_new_box, r_units, r_absint, r_derive, r_shape):
+    for r in (r_consts, r_new_box, r_units, r_absint, r_derive, r_shape, r_sum):
         chk.guarded(r, P, tier)
     chk.assume("exactness of checked_add/sub/mul/div results and the < 2 ns division bound are not decided (numerical content)")
     return {
@@ -135,6 +135,17 @@ def r_derive(chk, P, tier):
     d = derived_impls(P, TD)
     for tr in ("std::cmp::PartialEq", "std::cmp::Eq", "std::cmp::PartialOrd", "std::cmp::Ord", "std::hash::Hash"):
         chk.expect(d.get(tr) is True, tr, "impl %s for TimeDelta is not derived" % tr)
+
+
+def r_sum(chk, P, tier):
+    chk.rule("SIB.sum", "both Sum implementations fold with the same operator `+` from TimeDelta::zero() (by-value and by-reference siblings agree)", floor=2)
+    a = "<time_delta::TimeDelta as std::iter::Sum<&'a time_delta::TimeDelta>>::sum"
+    b = "<time_delta::TimeDelta as std::iter::Sum>::sum"
+    ADD = "<time_delta::TimeDelta as std::ops::Add>::add"
+    ca, cb = callees(P, a), callees(P, b)
+    chk.expect(ca == cb and ADD in ca and TD + "::zero" in ca, "sum", "the two Sum implementations differ: by-reference uses %s, by-value uses %s" % (sorted(ca), sorted(cb)), loc=P.loc(b))
+    ka, kb = callees(P, a + "::{closure#0}"), callees(P, b + "::{closure#0}")
+    chk.expect(ka == kb == {ADD}, "fold step", "the fold steps differ or do not use `+`: by-reference %s, by-value %s" % (sorted(ka), sorted(kb)), loc=P.loc(b))
 
 
 def r_shape(chk, P, tier):
